@@ -275,7 +275,7 @@ def main():
                 case = subseq[si // len(stage_names)]
             sim, log, expect, desc = one(stage, par, chooser, case=case)
         else:
-            n = rng.choice([0, 1, 1, 2]) if stage == "transform" else rng.choice([1, 2, 3, 5])
+            n = rng.choice([0, 1, 1, 2, 3]) if stage == "transform" else rng.choice([1, 2, 3, 5])
             sim, log, expect, desc = one(stage, par, chooser, n=n)
         bad = judge(stage, par, sim, log, expect, desc, f"random schedule (timeout weight {tw}, feeder weight {fw})")
         # tile geometry handed to leaf visits
